@@ -263,6 +263,12 @@ func normalize(opts *options, from interface{}) (*Config, Error) {
 
 	switch vFrom.Type() {
 	case tConfig:
+		if !vFrom.CanAddr() {
+			// a Config passed by value is not addressable: use a copy
+			tmp := reflect.New(tConfig).Elem()
+			tmp.Set(vFrom)
+			vFrom = tmp
+		}
 		return vFrom.Addr().Interface().(*Config), nil
 	case tConfigMap:
 		return normalizeMap(opts, vFrom)
